@@ -20,7 +20,7 @@ def run(tier):
         vlib.log("MODEL-CEX (not a verdict): sequential M violates " + ",".join(r.invariant_violated))
 
     # 2. every transition of the sequential model replayed on the real breaker
-    r = bc.tlc_with_cfg("MCBreaker", bc.gen_cfg_text([1], "CfgAll", False), "gen.cfg", workers=1, timeout=900)
+    r = bc.tlc_with_cfg("MCBreaker", bc.gen_cfg_text([1], "CfgAll", False), "gen.cfg", workers=8, timeout=900)
     scripts, ntr = bc.scripts_from_transitions(r, prefix="seq")
     tp = bc.replay(binp, scripts, sd, "seq")
     chk.cov["traces_validated_against_impl"] += len(scripts)
@@ -41,7 +41,7 @@ def run(tier):
         if len(callers) == 3:
             # too many transitions to emit one by one: simulate behaviours instead
             continue
-        r = bc.tlc_with_cfg("MCBreaker", bc.gen_cfg_text(callers, cs, False), "gen.cfg", workers=1, timeout=1800)
+        r = bc.tlc_with_cfg("MCBreaker", bc.gen_cfg_text(callers, cs, False), "gen.cfg", workers=8, timeout=1800)
         scripts, ntr = bc.scripts_from_transitions(r, prefix="conc" + nm)
         tp = bc.replay(binp, scripts, sd, "conc" + nm)
         chk.cov["traces_validated_against_impl"] += len(scripts)
